@@ -145,7 +145,12 @@ def check_cpd(case, out):
     before = (cpd_named(cpd), list(cpd.variables), {k: list(v) for k, v in cpd.state_names.items()})
 
     def untouched(tag):
-        if (cpd_named(cpd), list(cpd.variables), {k: list(v) for k, v in cpd.state_names.items()}) != before:
+        try:
+            now = (cpd_named(cpd), list(cpd.variables), {k: list(v) for k, v in cpd.state_names.items()})
+        except Exception as e:  # noqa: BLE001 - the CPD was left in a state that cannot even be read back
+            out.fail(f"{tag}:original_modified", f"the CPD can no longer be read after the call: {type(e).__name__}: {e}")
+            return
+        if now != before:
             out.fail(f"{tag}:original_modified", "out-of-place call changed the CPD")
 
     if op == "reorder_inplace":
@@ -293,7 +298,7 @@ def check_cpd(case, out):
 
 # ---------------------------------------------------------------------------------------------- validation
 DEFECTS = ["none", "none", "missing_cpd", "wrong_parent_set_missing", "wrong_parent_set_extra", "wrong_parent_set_swapped", "wrong_evidence_card",
-           "state_name_mismatch", "colsum_small", "colsum_big"]
+           "state_name_mismatch", "state_name_order_mismatch", "colsum_small", "colsum_big"]
 
 
 @st.composite
@@ -385,6 +390,18 @@ def check_model_case(case, out):
             p = c["parents"][0]
             sn = {x: list(spec["states"][idx[x]]) for x in [c["var"]] + c["parents"]}
             sn[p] = [("renamed", i) for i in range(len(sn[p]))]
+            built[c["var"]] = TabularCPD(c["var"], spec["card"][idx[c["var"]]], c["table"], evidence=list(c["parents"]),
+                                         evidence_card=[spec["card"][idx[x]] for x in c["parents"]], state_names=sn)
+    elif defect == "state_name_order_mismatch":
+        # the child's CPD lists the same state names for a parent as the parent's own CPD, but in another order: the two
+        # CPDs then disagree about which column is which state
+        cands = [(c, p) for c in spec["cpds"] for p in c["parents"] if spec["card"][idx[p]] >= 2]
+        if not cands:
+            applied = "none"
+        else:
+            c, p = cands[k % len(cands)]
+            sn = {x: list(spec["states"][idx[x]]) for x in [c["var"]] + c["parents"]}
+            sn[p] = sn[p][1:] + sn[p][:1]
             built[c["var"]] = TabularCPD(c["var"], spec["card"][idx[c["var"]]], c["table"], evidence=list(c["parents"]),
                                          evidence_card=[spec["card"][idx[x]] for x in c["parents"]], state_names=sn)
     elif defect in ("colsum_small", "colsum_big"):
